@@ -115,7 +115,14 @@ def gen_script(rnd, tier, state):
         k = rnd.random()
         # a rebuilt counter differs from an empty one only where a component is registered more than once for an interface
         several = len({(pp, w[1]) for (pp, nn), (w, _) in S.util.items()}) < len(S.util)
-        if pending:
+        if pending and rnd.random() < 0.12:
+            # the subscriber reacts by re-initialising the object (the test-cleanup idiom, from inside the event delivery)
+            L.append("reinit")
+            S = Spec()
+            pending = False
+            L += observations()
+            continue
+        elif pending:
             pass            # (the subscriber's call comes next: nothing in between)
         elif rnd.random() < p_reload * (3 if several else 1):
             L.append("reload")
